@@ -578,6 +578,12 @@ def u_visit_for(c):
         c.prove(f"{label}/{k_}", False, note="; ".join(p.what for p in problems if p.rule == k_), only=["C01"])
     # bracket structure (C06)
     body = out.body
+    # every variable the target binds (starred ones, nested ones) has its two markers: the
+    # transformer must have asked whether each of them is wanted (a marker never asked about is a marker never emitted)
+    # (the object of an attribute / item target is not a variable the loop binds: markers named after it are tolerated, not demanded)
+    bound = [v for v in vars_ if label not in ("subscript-target", "attribute-target")]
+    asked = [v for v in bound if (f"#loop_{v}", None) in dec and (f"#endloop_{v}", None) in dec]
+    c.prove(f"{label}/markers-considered-for-every-variable-of-the-target", asked == bound, note=f"asked for {asked}, target binds {bound}", only=["C06"])
     loops = [v for v in vars_ if dec.get((f"#loop_{v}", None))]
     ends = [v for v in vars_ if dec.get((f"#endloop_{v}", None))]
     if ends:
@@ -680,6 +686,11 @@ FUNC_SCHEMAS = [
     ("nonlocal-declared-in-a-nested-block", "def f(a):\n    if __E1:\n        nonlocal fv\n        fv = __E2\n    return fv", True, True),
     ("global-at-top-level", "def f(a):\n    global gg\n    gg = __E1\n    return gg", False, True),
     ("global-declared-in-a-nested-block", "def f(a):\n    while __E1:\n        global gg\n        gg = __E2\n    return gg", False, True),
+    # a declaration may stand in EVERY block of a compound statement: the handlers of a try and the cases of a match are not statements
+    # themselves (ast.ExceptHandler, ast.match_case), the blocks inside them are
+    ("global-declared-in-every-block-of-a-try", "def f(a):\n    try:\n        global g1\n        g1 = __E1\n    except __E2:\n        global g2\n        g2 = __E3\n    else:\n        global g3\n        g3 = __E4\n    finally:\n        global g4\n        g4 = __E5\n    return g1", False, True),
+    ("declared-in-loop-else-and-with", "def f(a):\n    for i in __E1:\n        global g1\n        g1 = i\n    else:\n        global g2\n        g2 = __E2\n    with __E3:\n        global g3\n        g3 = __E4\n    return g1", False, True),
+    ("nonlocal-declared-in-a-match-case", "def f(a):\n    match __E1:\n        case 1:\n            nonlocal fv\n            fv = __E2\n        case _:\n            global g1\n            g1 = __E3\n    return fv", True, True),
 ]
 
 
@@ -970,7 +981,7 @@ def siblings():
 '''
 
 
-@unit("transform-orchestration", ["C01", "C10", "C05", "C14"], [TR + ":transform", TR + ":_compile", TR + ":PteraTransformer.__init__",
+@unit("transform-orchestration", ["C01", "C10", "C05", "C14", "C03", "C13"], [TR + ":transform", TR + ":_compile", TR + ":PteraTransformer.__init__",
                                                                  TR + ":ExternalVariableCollector.__init__", TR + ":_readline_mock", TR + ":_standard_info",
                                                                  TR + ":_Conformer.__init__", TR + ":_gensym"],
       mode="bounded", bound="six sample functions (plain, closure, closure with positional and keyword-only defaults, generator, annotated/varargs/docstring, method) x {all variables, one variable}; "
@@ -1115,6 +1126,15 @@ def u_transform_orchestration(c):
         c.prove(f"{label}/rebuilt-function-behaves-like-the-original-on-samples", same, note=detail, only=["C01"])
         tok = getattr(new, "__ptera_token__", None)
         c.prove(f"{label}/token-is-a-global-holding-the-new-function", isinstance(tok, str) and glb.get(tok) is new)
+        # an activation announces itself through that global: it must name ONE function object.  Two function objects made by the same
+        # definition (closures of one factory, the same function instrumented again) get globals of their own, otherwise the one
+        # instrumented last answers for the activations of the other (events attributed to the wrong call: C03, C13)
+        twin = {"closure": lambda: mod.outer(6), "closure-with-defaults": lambda: mod.outer2(4), "defaults-from-enclosing-scope": mod.factory,
+                "closure-rebound-by-sibling": lambda: mod.siblings()[1]}.get(label, lambda: fn)()
+        st2, new2 = run(it, it.get_global(TR, "transform"), [twin, proceed], dict(to_instrument=to_instrument))
+        tok2 = getattr(new2, "__ptera_token__", None) if st2 == "ok" else None
+        c.prove(f"{label}/function-made-by-the-same-definition-gets-a-token-of-its-own", st2 == "ok" and isinstance(tok2, str) and tok2 != tok
+                and glb.get(tok2) is new2 and glb.get(tok) is new, note=f"{tok!r} / {tok2!r}", only=["C03", "C13", "C14", "C05"])
         info = getattr(new, "__ptera_info__", None)
         c.prove(f"{label}/info-table-present", isinstance(info, dict))
         if isinstance(info, dict):
